@@ -96,6 +96,14 @@ CORPUS = [
     typed_case("Queue", None, wire([("file", "a"), ("duration", "18446744073709551616")])),
     typed_case("Find", None, wire([("file", "a"), ("Time", "18446744073709551616")])),
     typed_case("Queue", None, wire([("file", "a"), ("Range", "0-18446744073709551616")])),
+    # relations BETWEEN fields that no decoder is entitled to assume: a range that ends before it starts, alone and beside
+    # a duration / Time; a position beyond the length; elapsed beyond duration
+    *[typed_case(c, None, wire([("file", "a.cue/track1"), ("Range", r)] + extra + [("Pos", "0"), ("Id", "1")]))
+      for c in ("Queue", "QueueRange", "CurrentSong", "Find", "GetPlaylist", "ListAllIn")
+      for r in ("35.500-10.000", "1-0", "0.001-0", "18446744073709551615-0", "5-5", "10-")
+      for extra in ([], [("duration", "3.000")], [("Time", "3")])],
+    typed_case("Status", None, wire([("state", "play"), ("repeat", "0"), ("random", "0"), ("consume", "0"), ("elapsed", "500.5"), ("duration", "3.000"),
+                                     ("song", "7"), ("playlistlength", "2"), ("nextsong", "9")])),
     # fix 18ee26e: grouped list iterator unwrapped the position of a field that is no grouping tag
     typed_case("List", "n:Title+n:Album", wire([("Album", "a"), ("Artist", "x"), ("Title", "t")])),
     typed_case("List", "n:Title+n:Album+n:AlbumArtist", wire([("Genre", "g"), ("Title", "t")])),
